@@ -111,6 +111,17 @@ func NewSnapshotter(path string,
 	inCh := make(chan Event, eventChSize)
 	streamCh := make(chan Event, eventChSize)
 
+	// A compaction removes the old snapshot before it renames the new one into
+	// place. If the process died in between, the complete new snapshot is
+	// still sitting next to the missing one: finish the swap.
+	if _, err := os.Stat(path); os.IsNotExist(err) {
+		if _, err := os.Stat(path + tmpExt); err == nil {
+			if err := os.Rename(path+tmpExt, path); err != nil {
+				return nil, nil, fmt.Errorf("failed to recover snapshot: %v", err)
+			}
+		}
+	}
+
 	// Try to open the file
 	fh, err := os.OpenFile(path, os.O_RDWR|os.O_APPEND|os.O_CREATE, 0644)
 	if err != nil {
